@@ -4,7 +4,8 @@
    every number of threads and every interleaving. Proofs: Proofs/SchedP.v. *)
 From Coq Require Import List Arith Bool.
 Import ListNotations.
-From LCC Require Import Base.Util Model.Proj Model.Sched Model.Graph Model.Fixture Model.TaskSem Proofs.SchedP Proofs.ProtocolP.
+From LCC Require Import Base.Util Model.Proj Model.Sched Model.Graph Model.Fixture Model.TaskSem Proofs.SchedP Proofs.ProtocolP
+     Proofs.GraphP Proofs.ShapeP.
 
 (* Setups come first and teardowns last: when a worker takes a task, every task it depends on — on success (a test on its
    suite's setup task, a suite setup on the session setup ...) or on mere completion (a suite teardown on the suite's setup
@@ -34,6 +35,29 @@ Theorem C03_setup_failure_skips_consumers : forall g sof s t deps1 d deps2 r,
   decide g sof s t JHandle = Skip (skip_reason_of r).
 Proof. exact skipped_if_a_dependency_did_not_succeed. Qed.
 Print Assumptions C03_setup_failure_skips_consumers.
+
+(* The edges, for EVERY project (every suite tree, fixture schedule, force_disabled; both passes of build_tasks): each
+   nested suite s' has its block of tasks [T] in the graph, and if the suite has a setup task (needs_init: it has something
+   to set up or tear down and a test to run) then that task is an on-success dependency of every test of the suite, and
+   the suite's teardown task depends — on completion only, whatever the outcome — on the setup task and on every test,
+   and on nothing on success.  With the two theorems above: for all projects, thread counts and interleavings the
+   setup has finished before any test of the suite starts, no test runs if it failed, and the teardown starts after the
+   setup and every test of the suite have finished, passed or not. *)
+Theorem C03_setup_teardown_edges_every_project : forall si force suites g s',
+  build_tasks si force suites = Some g -> In s' (all_subsuites suites) ->
+  exists pre post ss pb prefix inh,
+    let T := suite_tasks si force ss pb prefix inh (length pre) s' in
+    let b := length pre in let m := length (su_tests s') in
+    build_tasks_structural si force suites = pre ++ T ++ post /\
+    (needs_init si force inh (prefix ++ [su_name s']) s' = true ->
+       t_kind (get_task g (b + 1)) = KSuiteInit /\ t_kind (get_task g (b + 2 + m)) = KSuiteTeardown /\
+       In (b + 1) (t_compl (get_task g (b + 2 + m))) /\ t_succ (get_task g (b + 2 + m)) = [] /\
+       forall k, k < m ->
+         t_kind (get_task g (b + 2 + k)) = KTest /\
+         In (b + 1) (t_succ (get_task g (b + 2 + k))) /\
+         In (b + 2 + k) (t_compl (get_task g (b + 2 + m)))).
+Proof. exact suite_phases. Qed.
+Print Assumptions C03_setup_teardown_edges_every_project.
 
 (* the edges themselves, on a concrete project: the teardown of a suite waits on completion of the suite's setup and tests,
    the session teardown on the end of the top suite, tests on the suite setup (non-vacuity of the hypotheses above;
